@@ -46,7 +46,9 @@ def processLine (line : String) : String :=
           -- a reload reported as applied while the dispatcher (built once) keeps signing / checking by the old configuration
           let e := str j "restartEdit"
           let also := if (e.splitOn "sign").length > 1 then ",C17" else if (e.splitOn "egress").length > 1 then ",C16"
-                      else if (e.splitOn "pull_api.").length > 1 then ",C05,C03" else ""
+                      else if (e.splitOn "pull_api.").length > 1 then ",C05,C03"
+                      else if (e.splitOn "publish_policy").length > 1 then ",C15"
+                      else if (e.splitOn "queue_limits").length > 1 || (e.splitOn "retention").length > 1 then ",C12,C02" else ""
           s!"PROP C18{also} failed-reload-reported-ok case={c} fail={fail} {e}"
         else if after != before then
           s!"PROP C18 failed-reload-changed-behaviour case={c} fail={fail} probe={probes.getD (firstDiff before after) ""} before={before.getD (firstDiff before after) ""} after={after.getD (firstDiff before after) ""}"
